@@ -60,6 +60,9 @@ def run(tier):
     v.distinct += len(sch)
     cconform(v, wd, "4c-sim", g4, sch, invs=INV9)
 
+    # the clients' own start: creating / reading the salt object concurrently
+    salt_race(v, wd, thorough)
+
     v.finish("model_checking",
              rule="TLC explores every interleaving of the individual get/put/del/cas/list "
                   "requests of 2-3 clients each doing <= 3 operations (add-version, "
